@@ -93,9 +93,17 @@ func (e *Engine) rhe(n, d *Term, hint string) *Term {
 		e.pc = append(e.pc, Cmp("<=", Mul(KI(2), r), d))
 		e.pc = append(e.pc, Cmp(">=", Mul(KI(2), r), Neg(d)))
 		e.defs = append(e.defs, Cmp("=", q, Op2("rhe", n, d)))
+		e.refine = append(e.refine, e.tieRule(q, r, d))
 		return q
 	}
 	return Op2("rhe", n, d)
+}
+
+// tieRule: at an exact tie (2r = ±d) the quotient is even (round half to even).
+func (e *Engine) tieRule(q, r, d *Term) *Term {
+	k := e.freshVar("even")
+	tie := Or(Cmp("=", Mul(KI(2), r), d), Cmp("=", Mul(KI(2), r), Neg(d)))
+	return Or(Not(tie), Cmp("=", q, Mul(KI(2), k)))
 }
 
 // trunc = n/d rounded toward zero, d > 0.
@@ -183,6 +191,16 @@ func (e *Engine) decQuo(a, b *Term) *Term {
 		e.pc = append(e.pc, Cmp("<=", Mul(K(new(big.Int).Mul(big.NewInt(2), E18)), r), bound))
 		e.pc = append(e.pc, Cmp(">=", Mul(K(new(big.Int).Mul(big.NewInt(2), E18)), r), Neg(bound)))
 		e.defs = append(e.defs, Cmp("=", q, exact))
+		// refinement (b > 0 here): t = trunc(a*1e36/b), q = rhe(t, 1e18)
+		t, rt, r2 := e.freshVar("quo_t"), e.freshVar("quo_rt"), e.freshVar("quo_r2")
+		e.refine = append(e.refine, Cmp("=", Mul(a, kE36), Add(Mul(t, b), rt)))
+		e.refine = append(e.refine, Ite(Cmp(">=", a, KI(0)),
+			And(Cmp(">=", rt, KI(0)), Cmp("<", rt, b)),
+			And(Cmp("<=", rt, KI(0)), Cmp(">", rt, Neg(b)))))
+		e.refine = append(e.refine, Cmp("=", Mul(q, kE), Add(t, r2)))
+		e.refine = append(e.refine, Cmp("<=", Mul(KI(2), r2), kE))
+		e.refine = append(e.refine, Cmp(">=", Mul(KI(2), r2), Neg(kE)))
+		e.refine = append(e.refine, e.tieRule(q, r2, kE))
 		return q
 	}
 	return exact
